@@ -55,8 +55,16 @@ func c09Path(p string) (*c09Kernels, string) {
 		return &c09Kernels{gf2p16.VerifMulByteSliceLEGeneric, gf2p16.VerifMulAndAddByteSliceLEGeneric, func() {}}, ""
 	case "platformle":
 		return &c09Kernels{gf2p16.VerifMulByteSliceLEPlatformLE, gf2p16.VerifMulAndAddByteSliceLEPlatformLE, func() {}}, ""
-	case "wordslice":
+	case "wordslice", "wordslice-nossse3":
 		// the []T kernels used by Matrix row operations
+		restore := func() {}
+		if p == "wordslice-nossse3" {
+			if gf2p16.VerifPlatform != "amd64" {
+				return nil, "not an amd64 build"
+			}
+			old := gf2p16.VerifSetUseSSSE3(false)
+			restore = func() { gf2p16.VerifSetUseSSSE3(old) }
+		}
 		cast := func(f func(c gf2p16.T, in, out []gf2p16.T)) func(c gf2p16.T, in, out []byte) {
 			return func(c gf2p16.T, in, out []byte) {
 				ti := make([]gf2p16.T, len(in)/2)
@@ -72,7 +80,7 @@ func c09Path(p string) (*c09Kernels, string) {
 				}
 			}
 		}
-		return &c09Kernels{cast(gf2p16.VerifMulSlice), cast(gf2p16.VerifMulAndAddSlice), func() {}}, ""
+		return &c09Kernels{cast(gf2p16.VerifMulSlice), cast(gf2p16.VerifMulAndAddSlice), restore}, ""
 	}
 	return nil, "unknown path"
 }
@@ -159,11 +167,11 @@ func c09FillRefRow(c uint16) {
 }
 
 func c09Gen(g *core.Gen) {
-	paths := []string{"dispatch-ssse3", "dispatch-nossse3", "generic", "platformle", "wordslice"}
+	paths := []string{"dispatch-ssse3", "dispatch-nossse3", "generic", "platformle", "wordslice", "wordslice-nossse3"}
 	if runtime.GOARCH != "amd64" {
-		paths = []string{"dispatch"}
+		paths = []string{"dispatch", "wordslice"}
 		if g.Thorough() {
-			paths = []string{"dispatch", "generic", "platformle"}
+			paths = []string{"dispatch", "wordslice", "generic", "platformle"}
 		}
 	}
 	for _, p := range paths {
@@ -171,7 +179,7 @@ func c09Gen(g *core.Gen) {
 		for lo := 0; lo < 65536; lo += step {
 			g.Emit(&c09Case{Kind: "values", Path: p, Lo: lo, Hi: lo + step})
 		}
-		if p == "wordslice" {
+		if p == "wordslice" || p == "wordslice-nossse3" {
 			continue
 		}
 		for l := 0; l <= 200; l += 2 {
@@ -348,7 +356,7 @@ func init() {
 		ID:      "C09",
 		AltArch: true,
 		Level:   "model_checking",
-		Rule: "complete over values: for every dispatch path (SSSE3 assembly, non-SSSE3 assembly via the forced flag, portable Go byte kernels, the little-endian cast path, the []T kernels used by Matrix, and the real non-amd64 dispatch in a GOARCH=386 worker) x every constant c (65536) x a buffer holding every word value (65536) x {Mul, MulAndAdd against a prior content}. " +
+		Rule: "complete over values: for every dispatch path (SSSE3 assembly, non-SSSE3 assembly via the forced flag, portable Go byte kernels, the little-endian cast path, the []T kernels used by Matrix with the dispatch flag on and off, and the real non-amd64 dispatch (byte and []T kernels) in a GOARCH=386 worker) x every constant c (65536) x a buffer holding every word value (65536) x {Mul, MulAndAdd against a prior content}. " +
 			"Shapes: every even length 0..200 and {65534,65536,65538,131070,131072,131074,262178} x every (src,dst) alignment pair mod 16 (4x4 for the large ones) x 8 constants x placement against the upper / lower PROT_NONE guard page, plus in==out aliasing. " +
 			"Oracle: out[i]==ref(c,in[i]) (xor prior); input unchanged; guard pages (faults become panics via SetPanicOnFault) and canary bytes detect any access outside the buffers. non-trivial = every executed case",
 		Assumptions: []string{"'no SSSE3' is simulated by forcing the dispatch flag (build-tagged hook)", "big-endian hosts are reached only through the exported portable byte kernels"},
